@@ -462,7 +462,7 @@ def baseline():
         from hsa.repo import Repo
         repo = Repo(ROOT)
         _BASE = set()
-        for i in range(1, 18):
+        for i in list(range(1, 18)) + [19]:
             pid = "C%02d" % i
             mod = cli.load_prop(pid)
             obs, _s, errors = cli.run_rules(mod, repo, None)
@@ -488,7 +488,7 @@ def run_variant(job):
         except Exception as e:
             return {"job": job, "status": "load-error", "why": repr(e)}
         fired, errs = [], []
-        for i in range(1, 18):
+        for i in list(range(1, 18)) + [19]:
             pid = "C%02d" % i
             mod = cli.load_prop(pid)
             try:
